@@ -140,6 +140,51 @@ def directed_histories() -> list[dict]:
     return out
 
 
+def ufc_histories() -> list[dict]:
+    """Underfloor-heating controllers (HCE80): their circuits in use (RP|0005 role 09), each circuit's zone
+    (RP|000C role 09: the controller's id and the zone index, or 7FFFFFFF for a circuit that is not in use), and the
+    controller's own view of the same zones - in several orders, with circuits unassigned, re-assigned, and with the
+    controller not (yet) known.  Contract only (validator, reload)."""
+    from ramses_tx.address import dev_id_to_hex_id
+    ctl, ufc, ufc2 = "01:000111", "02:000921", "02:000922"
+    hx = dev_id_to_hex_id(ctl)
+
+    def c0005(u: str, idxs: list[int]) -> str:
+        return f"RP --- {u} {y.HGI} --:------ 0005 004 0009{y.mask([f'{i:02X}' for i in idxs])}"
+
+    def c000c(u: str, circuit: int, zone: int | None) -> str:
+        body = f"{circuit:02X}09{zone:02X}{hx}" if zone is not None else f"{circuit:02X}097FFFFFFF"
+        return f"RP --- {u} {y.HGI} --:------ 000C 006 {body}"
+
+    def ctl_zone(zone: int, u: str) -> str:
+        return f"RP --- {ctl} {y.HGI} --:------ 000C 006 {zone:02X}0900{dev_id_to_hex_id(u)}"
+
+    base = [c0005(ufc, [0, 1]), c000c(ufc, 0, 3), c000c(ufc, 1, 4), c000c(ufc, 2, None), c000c(ufc, 7, None)]
+    hists = {
+        "in-use-and-unused-circuits": base,
+        "unused-only": [c000c(ufc, 0, None), c000c(ufc, 5, None)],
+        "mask-only": [c0005(ufc, [0, 1, 2, 3, 4, 5, 6, 7])],
+        "mask-none": [c0005(ufc, [])],
+        "controller-first": [f"RP --- {ctl} {y.HGI} --:------ 0005 004 00090018", ctl_zone(3, ufc), ctl_zone(4, ufc)] + base,
+        "ufc-first-controller-later": base + [f"RP --- {ctl} {y.HGI} --:------ 0005 004 00090018", ctl_zone(3, ufc)],
+        "reassigned": base + [c000c(ufc, 0, 5), c000c(ufc, 1, None), c000c(ufc, 2, 3)],
+        "two-ufcs-one-zone": base + [c0005(ufc2, [0]), c000c(ufc2, 0, 3), c000c(ufc2, 1, None)],
+        "demand-traffic": base + [f" I --- {ufc} --:------ {ufc} 22C9 006 0007D00A2801",
+                                  f" I --- {ufc} --:------ {ufc} 3150 010 00000100020003000400",
+                                  f" I --- {ufc} --:------ {ctl} 3150 002 FC00"],
+    }
+    out = []
+    for tag, frames in hists.items():
+        for n, eav in enumerate((False, True)):
+            # the UFC unknown to the configuration / configured as the controller's (then its circuits are reported
+            # in the controller's schema)
+            for sch in (None, {"main_tcs": ctl, ctl: {"underfloor_heating": {ufc: {}}}}):
+                out.append({"kind": "directed-ufc", "tag": tag + ("+configured" if sch else ""), "eavesdrop": eav,
+                            "max_zones": 12, "schema": sch,
+                            "claims": [{"k": "raw", "frame": fr} for fr in frames]})
+    return out
+
+
 def log_histories(rng: random.Random, n_variants: int) -> list[dict]:
     """Histories from the shipped packet logs: as they are, spliced with another system's log, with
     stretches repeated or dropped - eavesdropping on and off, max_zones 1..16 (contract only)."""
@@ -466,6 +511,7 @@ def main(tier: str, replay: str | None) -> None:
                     graphs.setdefault(json.dumps(sch, sort_keys=True), sch)
     n_hist = len(jobs)
     jobs += directed_histories()
+    jobs += ufc_histories()
     jobs += log_histories(rng, 120 if thorough else 10)
     # the same histories under other max_zones settings (contract only, the model instance is for 2)
     for j in rng.sample(jobs[:n_hist], min(len(jobs), 60 if thorough else 12)):
